@@ -206,6 +206,8 @@ impl World {
                 let pool = statics::pool();
                 match pool.find_by_ptr(ptr) {
                     Some(k) if len <= pool.texts[k].len() => {}
+                    // a static text of the crate's own (a literal in read-only memory) is as good as one of the pool
+                    _ if in_readonly_mapping(ptr, len) => {}
                     _ => {
                         fails.push(Failure {
                             clause: "C10.static_ptr".to_string(),
@@ -301,4 +303,20 @@ pub fn resolve_text(t: &Text, len: usize, cap: usize) -> String {
         }
         Text::Repeat { n, unit } => std::iter::repeat_n(*unit, (*n).min(192 << 20)).collect(),
     }
+}
+
+/// Is [ptr, ptr+len) inside a mapping of this process that is readable and not writable (program text / rodata)?
+/// Consulted only for non-heap handles that point neither into themselves nor into the harness's pool.
+fn in_readonly_mapping(ptr: usize, len: usize) -> bool {
+    let Ok(maps) = std::fs::read_to_string("/proc/self/maps") else { return false };
+    for line in maps.lines() {
+        let mut it = line.split_whitespace();
+        let (Some(range), Some(perms)) = (it.next(), it.next()) else { continue };
+        let Some((a, b)) = range.split_once('-') else { continue };
+        let (Ok(a), Ok(b)) = (usize::from_str_radix(a, 16), usize::from_str_radix(b, 16)) else { continue };
+        if ptr >= a && ptr.saturating_add(len) <= b {
+            return perms.starts_with('r') && perms.as_bytes().get(1) == Some(&b'-');
+        }
+    }
+    false
 }
